@@ -87,13 +87,21 @@ Proof.
   - intro H; inversion H; subst. reflexivity.
 Qed.
 
+Lemma closing_tail_limits r1 s1 r' s' : closing_tail r1 s1 = Ok (r', s') -> limits_of r' = limits_of r1.
+Proof.
+  unfold closing_tail.
+  destruct (r_readline r1 s1) as [[[ep r2] s2]|e] eqn:R2; [|discriminate]. apply r_readline_limits in R2.
+  destruct (r_readline r2 s2) as [[[nl r3] s3]|e] eqn:R3; [|discriminate]. apply r_readline_limits in R3.
+  intro H; inversion H; subst. rewrite r_upd_limits. congruence.
+Qed.
+
 Lemma first_boundary_limits fuel : forall r s r' s', read_until_first_boundary fuel r s = Ok (r', s') -> limits_of r' = limits_of r.
 Proof.
   induction fuel as [|f IH]; intros r s r' s' H; [discriminate|]. cbn [read_until_first_boundary] in H.
   destruct (r_readline r s) as [[[chunk r1] s1]|e] eqn:R; [|discriminate]. apply r_readline_limits in R.
   destruct (is_nil chunk); [discriminate|].
   destruct (list_eqb _ (r_boundary r)); [inversion H; subst; exact R|].
-  destruct (list_eqb _ _); [inversion H; subst; rewrite r_upd_limits; exact R|].
+  destruct (list_eqb _ _); [apply closing_tail_limits in H; congruence|].
   rewrite (IH _ _ _ _ H). exact R.
 Qed.
 
@@ -101,10 +109,7 @@ Lemma read_boundary_limits r s r' s' : read_boundary r s = Ok (r', s') -> limits
 Proof.
   unfold read_boundary. destruct (r_readline r s) as [[[chunk r1] s1]|e] eqn:R1; [|discriminate]. apply r_readline_limits in R1.
   destruct (list_eqb _ (r_boundary r)); [intro H; inversion H; subst; exact R1|].
-  destruct (list_eqb _ _); [|discriminate].
-  destruct (r_readline r1 s1) as [[[ep r2] s2]|e] eqn:R2; [|discriminate]. apply r_readline_limits in R2.
-  destruct (r_readline r2 s2) as [[[nl r3] s3]|e] eqn:R3; [|discriminate]. apply r_readline_limits in R3.
-  intro H; inversion H; subst. rewrite r_upd_limits. congruence.
+  destruct (list_eqb _ _); [|discriminate]. intro H. apply closing_tail_limits in H. congruence.
 Qed.
 
 (* MultipartReader.next(): the reader keeps its limits and a nested reader starts with the same limits *)
